@@ -84,15 +84,18 @@ def fixExts (g : G D) (valid : Option (List Nat)) : G D :=
     | some e, some nd => { g with nodes := g.nodes.set i { nd with exts := e } }
     | _, _ => g) g
 
+/-- one node of `sequence_of_path`: the whole oriented sequence for the first node, all but its first `K-1` bases after that -/
+def seqStep (g : G D) (acc : Option Seq) (pi : (Nat × Dir) × Nat) : Option Seq :=
+  match acc, g.nodes[pi.1.1]? with
+  | some sq, some nd =>
+    let s := match pi.1.2 with | .L => nd.seq | .R => rc nd.seq
+    let start := if pi.2 = 0 then 0 else g.K - 1
+    some (sq ++ s.drop start)
+  | _, _ => none
+
 /-- `sequence_of_path(path)` -/
 def sequenceOfPath (g : G D) (path : List (Nat × Dir)) : Option Seq :=
-  path.zipIdx.foldl (fun acc (pi : (Nat × Dir) × Nat) =>
-    match acc, g.nodes[pi.1.1]? with
-    | some sq, some nd =>
-      let s := match pi.1.2 with | .L => nd.seq | .R => rc nd.seq
-      let start := if pi.2 = 0 then 0 else g.K - 1
-      some (sq ++ s.drop start)
-    | _, _ => none) (some [])
+  path.zipIdx.foldl (seqStep g) (some [])
 
 def optScore (g : G D) (score : D → Int) (c : Option (Nat × Dir)) : Int :=
   match c with
